@@ -149,7 +149,10 @@ pub fn for_property(prop: &str) -> Vec<Family> {
             f("pipe-drop", "output stream dropped while the input stays open and silent", gen_pipe_drop, Q / 2, T / 2),
             sw("pipe-drop-sweep", "the drop of the output injected at every scheduling point of the context polling the input", gen_pipe_drop_sweep, Q / 2, T / 2, 64),
         ],
-        "C17" => vec![f("pool", "maximum 0..3 lazily grown, threads racing to spawn, limit raised/lowered/extra threads/despawn between phases", gen_pool, Q / 2, T / 2)],
+        "C17" => vec![
+            f("pool", "maximum 0..3 lazily grown, threads racing to spawn, limit raised/lowered/extra threads/despawn between phases", gen_pool, Q * 3 / 8, T * 3 / 8),
+            f("pool-panic", "pool threads have died of panicking jobs; several threads then schedule work at once, so that reaping, replacing and waking race", gen_pool_panic, Q / 8, T / 8),
+        ],
         "C09" => vec![
             f("try", "try_sync racing every other operation kind and their completion paths", g_try, Q * 3 / 4, T * 3 / 4),
             f("mix-kick", "sync/try_sync callers and wakers racing with pool threads going dormant", g_kick, Q / 4, T / 4),
